@@ -42,6 +42,12 @@ CHECKS = {
         note="Runs in the val/rel builds where sw-composite returns the offending value instead of asserting; the known-finding signature requires mode Color and an invalid formula-of-record output for that exact (source, destination) pair.",
         ref="DESIGN.md section 3, C18",
     ),
+    "C07": dict(
+        technique="no-panic/no-abort/progress monitor over grammar-based boundary-value fuzzing in worker subprocesses (chk build: overflow checks and debug assertions on in every crate), heartbeat supervisor, iteration-bound hooks on the dash loops; AddressSanitizer build in the thorough tier",
+        text="Generated call sequences over the whole public API with boundary-biased values inside the stated domain run in worker subprocesses under catch_unwind; a panic, a dead worker (abort/OOM), an iteration-bound overrun or a case that finishes in neither of two isolated re-runs is a violation. Held on the sequences run; two known findings in the dependency sw-composite (non-separable blend modes) are reported as KNOWN-FINDING by exact signature.",
+        note="Domain decisions where the statement is silent are listed in the evidence (assumptions): transform scales 1e-4..1e4 or singular, increasing gradient stop positions, valid premultiplied inputs, <= 5000 dashes in routine cases, surfaces <= 64 px.",
+        ref="DESIGN.md section 3, C07",
+    ),
     "C10": dict(
         technique="fresh-twin history differential (exact) over long random call histories, steered by the verif_state hook; the same histories under AddressSanitizer and Miri in the thorough tier",
         text="After every call of long random histories on one DrawTarget the call is replayed on a fresh target holding the same pixels, transform and clip stack and the pixels are compared bit for bit; histories are biased towards no-op draws and towards followers that make leftover cursor/rasteriser state visible. Held on the histories run; thorough adds ASan and Miri runs of the same workload (a sanitizer report is a violation).",
